@@ -56,6 +56,7 @@ type world struct {
 	// allocation accounting
 	allocConst uint64
 	allocPerB  uint64
+	base       string // hang-watch label outside guarded deliveries
 }
 
 // guard runs one delivery of hostile input under the three oracles.
@@ -77,7 +78,7 @@ func (w *world) guard(entry string, what string, inputLen int, fn func() error) 
 		}()
 		err = fn()
 	}()
-	core.CallEnd()
+	core.CallStart(w.base) // what follows until the next delivery is watched too (a lock left behind shows there)
 	runtime.ReadMemStats(&m1)
 	r.Count("evals")
 	r.Count("deliveries:" + entry)
@@ -165,8 +166,12 @@ func runC11(r *core.Run) {
 	}
 	r.SetCfg("families", strings.Join(on, ","))
 	steps := s.Range("steps", 20, 120)
+	defer core.CallEnd()
 	for i := 0; i < steps && !r.Aborted(); i++ {
-		switch on[s.Choose("which", len(on))] {
+		f := on[s.Choose("which", len(on))]
+		w.base = "harness and honest traffic of family " + f + " after the deliveries so far (a lock or goroutine left behind?)"
+		core.CallStart(w.base)
+		switch f {
 		case "tree":
 			w.stepTree()
 		case "acl":
@@ -193,6 +198,8 @@ func runC11(r *core.Run) {
 }
 
 func (w *world) closeAll() {
+	core.CallStart("closing the victim after the deliveries (a lock left behind?)")
+	defer core.CallEnd()
 	if w.tt != nil {
 		w.tt.close()
 	}
